@@ -26,8 +26,8 @@ CONVERTERS = [
     lambda: Converter([Record(prefix="a", uri_prefix="http://x/", prefix_synonyms=["A1"], uri_prefix_synonyms=["http://y/"]), Record(prefix="", uri_prefix="http://d/")], delimiter="/"),
 ]
 
-CELLS = ["http://x/1", "http://y/2", "a:1", "A1:2", "http://q/1", "zz:1", "nodelim", "", "http://x/\t1", 'a:"q"', "http://x/1\n2", "a:1\r2"]
-CELLS_SMALL = ["http://x/1", "A1:2", "zz:1", "", 'a:"q"', "a:1\r2"]
+CELLS = ["http://x/1", "http://y/2", "a:1", "A1:2", "http://q/1", "zz:1", "nodelim", "", "http://x/\t1", 'a:"q"', "http://x/1\n2", "a:1\r2", "\ufeffa:1"]
+CELLS_SMALL = ["http://x/1", "A1:2", "zz:1", "", 'a:"q"', "a:1\r2", "\ufeffa:1"]   # the last starts with a byte-order mark
 OTHER = ["k", "has\ttab", 'q"uote', "line\nbreak", "cr\rx", "", "com,ma"]
 SHORT = "<short-row>"   # a row with a single cell
 BLANK = "<blank-row>"   # an empty line
@@ -90,7 +90,7 @@ def check_file(conv_idx, op, table, column, header, sep, strict, passthrough, am
     fails = []
     conv = CONVERTERS[conv_idx]()
     rows = rows_of(table, column, conv_idx, shift)
-    head = ['h"1', "h 2"] if header != "multiline" else ["multi\nline", 'q"']
+    head = ['h"1', "h 2"] if header != "multiline" else ["\ufeffmulti\nline", 'q"']
     path = os.path.join(tmpdir(), f"{os.getpid()}.tsv")
     with open(path, "w", newline="", encoding="utf-8") as fh:
         w = csv.writer(fh, delimiter=sep)
